@@ -84,7 +84,7 @@ def save_text(v):
 class C16(Prop):
     id = "C16"
     title = "saved values restore to equal values; saves are atomic; restore is robust"
-    lean_modules = ["NV.C16.Props", "NV.C16.Witness"]
+    lean_modules = ["NV.C16.Props", "NV.C16.Witness", "NV.C16.SpecTests"]
     theorems = ["NV.C16.Props." + t for t in (
         "size_bounds_output", "saveVariable_no_crash", "saveObject_no_crash", "restore_total", "restoreObject_total",
         "roundtrip", "safe_restore_keeps_old_on_error", "restoreObject_error_keeps_variable", "save_atomic",
@@ -628,6 +628,23 @@ class C16(Prop):
         B.append(E.Case("b-static-chain", self.tree_case_lines(E.Rng(23), T3, "r3", ["so", "ro", "cp"]), {"origin": "boundary"}))
         T4 = {"s0": ([], [("p", "x"), ("n", "k")]), "s1": ([("n", "s0")], [("n", "x"), ("s", "k")])}
         mk("same-name-static-twin", self.prog_lines(T4) + ["useg s1", "setm a[i1,i2,i3,i4]", "so 1", "setm a[i5,i6,i7,i8]", "ro 1"])
+        # variable names against `char var[100]`: 98, 99 (fit), 100, 101 (refused) characters; very long lines
+        mk("name-buffer", ["set i1 i2 i3 i4 i5"] + sum([["wf " + (b"#/c16/obj.c\n" + b"n" * k + b" 1\nvi 7\n").hex(), "ro 0"]
+                                                   for k in (98, 99, 100, 101, 250)], []) +
+           ["wf " + (b"#/c16/obj.c\nvi \"" + b"x" * 70000 + b"\"\nva ({" + b"1," * 9000 + b"})\nvb 5\n").hex(), "ro 0",
+            "wf " + (b"vi 1\n" + b"#" * 5000 + b"\nva 2").hex(), "ro 1", "wf " + (b"vi 1\nva 2\n\n").hex(), "ro 0",
+            "wf " + (b"\nvi 1\n").hex(), "ro 0", "wf " + (b"vi\n").hex(), "ro 0", "wf " + (b" 5\nvi 3\n").hex(), "ro 0",
+            "wf " + b'va "abc\nvb 1\n'.hex(), "ro 1", "wf " + b"va (x\nvb 1\n".hex(), "ro 0", "wf " + b"va (/1,2\n".hex(), "ro 1",
+            "wf " + b"vb -\n".hex(), "ro 0"])
+        # class instances at depth, on both sides of the limit, inside every other container kind
+        mk("classes-at-depth", ["rt " + vtxt(self.nest(d, "c")) for d in (1, 2, 24, 25, 26)] +
+           ["rt " + vtxt(("a", [self.nest(24, "cm")])), "rt " + vtxt(("m", [(self.nest(23, "c"), self.nest(24, "c"))])),
+            "rt c(c(c(),c(i1)),c(s22,c(m{c(i1):c(i2)})))", "rt c()", "rt a[c(),c(i0),c(o)]",
+            "rv " + b"(/(/(/1,/),/),(/".hex(), "rv " + b"({(/1,2,/),(/3,})".hex(), "rv " + b"(/1,2,})".hex(),
+            "rv " + b"({(/1,2,}),})".hex(), "rv " + (b"(/" + b"1," * 70000 + b"/)").hex()[:0] + b"(/1,/)x".hex()])
+        mk("noclear-many", ["use many", "setm " + vtxt(("a", [("i", k % 3) for k in range(24)])), "so 0",
+                            "setm " + vtxt(("a", [("i", 50 + k) for k in range(24)])), "ro 1",
+                            "setm " + vtxt(("a", [("i", 80 + k) for k in range(24)])), "ro 0"])
         mk("crash-points", ["set i1 s61 a[i1,i2] i7 m{i1:i2}", "so 0", "set i2 s62 a[i3] i8 m{}", "cp 0", "cf 0",
                             "ro 0"])
         mk("crash-points-nofile", ["set i1 s61 a[i1,i2] i7 m{i1:i2}", "cp 1", "cf 1"])
@@ -659,11 +676,11 @@ class C16(Prop):
 
     def gen_case(self, rng, cid, tier):
         kind = rng.weighted([("rt", 8), ("malformed", 8), ("trunc-all", 1), ("object", 3), ("crash", 1), ("renamed", 2),
-                             ("many", 1), ("names", 1), ("tree", 6)])
+                             ("many", 1), ("names", 1), ("tree", 5)])
         lines = ["rm"]
         if kind == "tree":
             progs, top = self.gen_progs(rng, allow_dups=rng.chance(1, 8))
-            steps = rng.choice([["so", "ro"], ["so", "ro", "so", "ro"], ["so", "ro", "cp"], ["so", "cp"]])
+            steps = rng.weighted([(("so", "ro"), 5), (("so", "ro", "so", "ro"), 3), (("so", "ro", "cp"), 1), (("so", "cp"), 1)])
             return E.Case(cid, self.tree_case_lines(rng, progs, top, steps), {"origin": "generated", "kind": kind})
         if kind == "renamed":
             return E.Case(cid, self.renamed_case(rng, 24 if rng.chance(1, 3) else 7), {"origin": "generated", "kind": kind})
@@ -751,6 +768,34 @@ class C16(Prop):
         h = {"roundtrips": 0, "restores_of_text": 0, "restore_errors": 0, "restore_values": 0, "save_objects": 0,
              "restore_objects": 0, "restore_object_errors": 0, "crash_points": 0, "injected_failures": 0,
              "sanitizer": 0}
+        errs, kinds, tops, marks = {}, {}, {}, {"class_values_saved": 0, "nesting_25_or_more": 0, "noclear_restores": 0,
+                                             "static_inherits": 0, "trees_dumped": 0, "strings_with_cr": 0, "nonfinite_floats": 0}
+        for c in cases:
+            k = c.meta.get("kind") or c.meta.get("origin") or "?"
+            kinds[k] = kinds.get(k, 0) + 1
+            for l in c.lines:
+                if l.startswith(("rt ", "set ", "setm ")):
+                    marks["class_values_saved"] += l.count("c(")
+                    marks["nesting_25_or_more"] += 1 if ("[" * 25 in l.replace("a[", "[").replace("m{", "[").replace("c(", "[").replace("i", "")
+                                                       or l.count("[") + l.count("{") + l.count("(") >= 25) else 0
+                    marks["strings_with_cr"] += 1 if re.search(r"s(?:[0-9a-f]{2})*?0d", l) else 0
+                    marks["nonfinite_floats"] += len(re.findall(r"f[7f]ff[0-9a-f]{13}", l))
+                elif l.startswith(("ro 1", "rox 1")):
+                    marks["noclear_restores"] += 1
+                elif l.startswith("prog "):
+                    marks["static_inherits"] += l.count(" i:s:")
+            for l in impl.get(c.id, []):
+                if l.startswith("err "):
+                    m = re.sub(r"while restoring \S+", "while restoring <var>", l[4:]).strip()
+                    errs[m] = errs.get(m, 0) + 1
+                elif l.startswith("rest "):
+                    tops[l[5:6]] = tops.get(l[5:6], 0) + 1
+                elif l.startswith("tree "):
+                    marks["trees_dumped"] += 1
+        h["error_kinds"] = errs
+        h["case_kinds"] = kinds
+        h["restored_top_level_types"] = tops
+        h.update(marks)
         for c in cases:
             for l in c.lines:
                 if l.startswith("rt"):
